@@ -6,6 +6,7 @@ NS_EDIT = {"cls": "argparse.Namespace",
 
 
 def register(reg):
+    register_config(reg)
     C = reg.contract
     L = "loaded(args.metafile)"
     flag = {"url-list": "url_list", "httpseeds": "httpseeds", "announce": "announce", "source": "source", "comment": "comment"}
@@ -31,3 +32,41 @@ def register(reg):
       raises={"BaseException": {}},
       notes="argparse is assumed (level A): an option that was not given is None, --private is store_true (False when absent); "
             "the table is cross-checked against cli.py by the bounded harness")
+
+
+CONFIG_DOMAIN = "dict{announce,tracker,web-seed,http-seed,private,source,comment,piece-length,meta-version,out,align}"
+
+
+def _config_setup(p, env):
+    """ghost: the [config] section as configparser presents it (lower-cased option names, str values)"""
+    sec = p.engine.make_symbolic(p, "cfg", CONFIG_DOMAIN)
+    h = p.heap[sec.rid]
+    h.tag["lower_keys"] = True
+    h.tag["str_values"] = True
+    p.ghost["config_section"] = sec
+    env["cfg"] = sec
+
+
+def register_config(reg):
+    C = reg.contract
+    C("torrentfile.commands.parse_config_file",
+      props=["C20"],
+      params={"path": "str", "kwargs": "dict"},
+      ghost={"k": "str", "t": "str"},
+      setup=_config_setup,
+      modifies=["kwargs"],
+      requires=["not (('announce' in cfg) and ('tracker' in cfg))"],
+      ensures=[
+          ("C20", "config_key_lands_in_cli_dest",
+           "implies(k in cfg, (config_kw(k) in kwargs) and kwargs[config_kw(k)] == config_conv(k, cfg[k]))"),
+          ("C20", "nothing_else_changes",
+           "implies(not config_target_before(cfg, t, dict_len(cfg)), same_entry(kwargs, old(kwargs), t))"),
+      ],
+      loops={0: {"index": "_i0", "instantiate": {"k": ["key"]}, "invariant": [
+          ("done_keys", "implies((k in cfg) and 0 <= key_index(cfg, k) < _i0, "
+                        "(config_kw(k) in kwargs) and kwargs[config_kw(k)] == config_conv(k, cfg[k]))"),
+          ("frame", "implies(not config_target_before(cfg, t, _i0), same_entry(kwargs, old(kwargs), t))"),
+      ]}},
+      notes="the documented keys are announce, tracker, web-seed, http-seed, private, source, comment, piece-length, meta-version, "
+            "out, align; config_kw(key) is read from cli.py on every run (dest of the create flag --key); a file giving both "
+            "'announce' and 'tracker' is outside the precondition (last one wins, order-dependent)")
